@@ -114,10 +114,46 @@ def rule_step_summary(prog, rep):
     want = eval_ref_function(prog, m, STEP_REF, [P, S, A], kw)
     compare(rep, "C16.step", site, "step", got, want, "step")
     m, fn = prog.func(TU + "count_fruitless")
+    if _count_fruitless_by_orderings(prog, rep, m, fn):
+        return
     L = ("sym", "LOSSES")
     got = Interp(prog).eval_function(TU + "count_fruitless", [L])
     want = eval_ref_function(prog, m, COUNT_REF, [L])
     compare(rep, "C16.step", f"{m.relpath}:{fn.lineno}", "count_fruitless", got, want, "count_fruitless")
+
+
+def _count_fruitless_by_orderings(prog, rep, m, fn, max_len=5) -> bool:
+    """count_fruitless touches the losses only through comparisons (min / argmin / <), so its result on a list depends
+    on the list's ORDER TYPE alone.  The function's syntax tree is evaluated (the checker's own evaluator over
+    order-only tokens, arithmetic on a loss is outside the subset) on every strict ordering of every length 1..5 -
+    326 cases that stand for all lists of distinct losses of those lengths - and must return the number of entries
+    after the minimum.  Ties are not part of the property (DESIGN 3 C16) and are not enumerated.  Returns False when
+    the function is outside the evaluated subset (the caller compares terms instead)."""
+    import itertools
+    from .shapeexec import Budget, Evaluator, Ord, Unsupported
+    site = f"{m.relpath}:{fn.lineno}"
+    n_cases = 0
+    for n in range(1, max_len + 1):
+        for perm in itertools.permutations(range(n)):
+            losses = [Ord(r) for r in perm]
+            try:
+                got = Evaluator(prog, module=m).call_function("count_fruitless", [losses])
+            except (Unsupported, TypeError):
+                return False
+            except Budget:
+                rep.undecided("C16.step", site, "count_fruitless", f"evaluation on the ordering {list(perm)} does not finish")
+                return True
+            want = n - 1 - perm.index(0)
+            n_cases += 1
+            if not (isinstance(got, int) and not isinstance(got, bool) and got == want):
+                rep.violated("C16.step", site, "count_fruitless",
+                             f"on losses ordered like {list(perm)} (0 = smallest) count_fruitless evaluates to {got!r}; "
+                             f"{want} epochs have passed since the minimum")
+                return True
+    rep.holds("C16.step", site, "count_fruitless",
+              f"= number of entries after the minimum on all {n_cases} strict orderings of length 1..{max_len} (the function "
+              f"only compares losses)")
+    return True
 
 
 def params_loss_evaluated_at(loss_term, params_arg_index=0):
